@@ -182,7 +182,7 @@ def check_case(ctx, case, record=True, only=None):
             ctx.count("cases")
             ctx.count("file_ops", k=nops)
         # the failing-serialisation case itself (no injected fault)
-        plans = [(k, fk) for k in range(nops) for fk in ("oserror", "kbi", "exit")]
+        plans = [(k, fk) for k in range(nops) for fk in ("oserror", "perm", "kbi", "exit")]
         if case["bad"]:
             plans.append((None, "serialisation"))
         if only is not None:
@@ -231,9 +231,13 @@ def run_one(ctx, case, d, new, prev_bytes, new_bytes, k, fk, nops, oplog, record
                 raised = e
         if k is not None and not inj.fired and raised is None and not case["bad"]:
             ctx.violation(key_case, tag + "harness: the planned file operation was never reached")
-        if raised is None and (k is not None or case["bad"]):
-            ctx.violation(key_case, tag + "the write did not raise although a fault was injected / the value is unserialisable")
+        if raised is None and case["bad"]:
+            ctx.violation(key_case, tag + "the write did not raise although the value is unserialisable")
     got = file_bytes(path)
+    if fk != "exit" and raised is None and got != new_bytes:
+        # (an implementation may absorb a transient fault by retrying; then the new value must be there)
+        ctx.violation(key_case, tag + f"write returned normally but the target holds {got!r:.120} instead of the complete "
+                                      f"new value {new_bytes!r:.80}")
     allowed = [prev_bytes] + ([new_bytes] if new_bytes is not None else [])
     if got not in allowed:
         ctx.violation(key_case, tag + f"target holds {got!r:.120}, which is neither the complete previous value {prev_bytes!r:.80} "
@@ -245,8 +249,6 @@ def run_one(ctx, case, d, new, prev_bytes, new_bytes, k, fk, nops, oplog, record
         if not changed and got == new_bytes and got != prev_bytes:
             ctx.violation(key_case, tag + "new value in place but the modified time did not change")
     if fk != "exit" and raised is not None:
-        if got == new_bytes and new_bytes is not None and new_bytes != prev_bytes:
-            ctx.violation(key_case, tag + f"write raised {raised!r} but the new value is in place")
         left = staging_entries(d)
         if left:
             ctx.violation(key_case, tag + f"write failed with {type(raised).__name__} but left staging entries behind: {left}",
